@@ -2003,8 +2003,18 @@ func lazyInitOf(p *eng.Prog, fn *ssa.Function, blk *ssa.BasicBlock, structName s
 	if depth > 2 {
 		return false
 	}
-	if fn.Parent() != nil {
-		return false
+	if par := fn.Parent(); par != nil {
+		// a closure runs no earlier than the place that makes it
+		sites, all := 0, true
+		eng.Instrs(par, false, func(in ssa.Instruction) {
+			if mc, ok := in.(*ssa.MakeClosure); ok && mc.Fn == ssa.Value(fn) {
+				sites++
+				if !lazyInitOf(p, par, mc.Block(), structName, depth+1) {
+					all = false
+				}
+			}
+		})
+		return sites > 0 && all
 	}
 	if obj, ok := fn.Object().(*types.Func); !ok || obj.Exported() {
 		return false
@@ -2164,5 +2174,209 @@ func memoInvalidationRule(id string, pkgs ...string) func(*eng.Ctx) {
 		if n == 0 {
 			c.Ok(R, "scope#memos", token.NoPos, "no lookup-then-fill memo on a receiver in "+strings.Join(pkgs, ", "))
 		}
+	}
+}
+
+// ---------------------------------------------------------------------------------------------------------------
+// R8.10 the operator dispatch of the extractors is not gated by extractor state.
+
+// R8.10 [C08]
+func ruleDispatchNotGatedByState(c *eng.Ctx) {
+	const R = "R8.10-DISPATCH-NOT-GATED-BY-STATE"
+	c.Rule(R, "in processOperation of the text extractor and of the graphics extractor nothing that depends on the extractor's own fields returns (or skips) before the operator is dispatched: cm, q, Q and the other state operators take effect wherever they occur, also between BT and ET, so a mode flag that filters operators before the switch drops transformations that the imaging model applies", 2, 1)
+	for _, name := range []string{"text.(*Extractor).processOperation", "graphicsstate.(*GraphicsExtractor).processOperation", eng.PositivePkg + ".(*OpRunner).processOperation"} {
+		fn := c.P.Func(name)
+		if fn == nil {
+			if !strings.Contains(name, eng.PositivePkg) {
+				c.Undec(R, name, token.NoPos, "anchor not found")
+			}
+			continue
+		}
+		recv := fn.Params[0]
+		// the first operator comparison
+		var first *ssa.BasicBlock
+		eng.Instrs(fn, false, func(in ssa.Instruction) {
+			b, ok := in.(*ssa.BinOp)
+			if !ok || b.Op != token.EQL {
+				return
+			}
+			isOp := false
+			for _, v := range []ssa.Value{b.X, b.Y} {
+				if fr, ok := eng.LoadOfField(v); ok && fr.Field == "Operator" {
+					isOp = true
+				}
+				if f, ok := v.(*ssa.Field); ok {
+					if st, ok := f.X.Type().Underlying().(*types.Struct); ok && st.Field(f.Field).Name() == "Operator" {
+						isOp = true
+					}
+				}
+			}
+			if !isOp {
+				return
+			}
+			if _, ok := eng.ConstString(b.Y); !ok {
+				if _, ok := eng.ConstString(b.X); !ok {
+					return
+				}
+			}
+			if first == nil || in.Block().Dominates(first) {
+				first = in.Block()
+			}
+		})
+		if first == nil {
+			c.Undec(R, name+"#dispatch", fn.Pos(), "no comparison of the operator with a constant found")
+			continue
+		}
+		touchesState := func(v ssa.Value) bool {
+			for w := range eng.Slice(v, func(*ssa.Call) bool { return true }) {
+				if fa, ok := w.(*ssa.FieldAddr); ok && fa.X == ssa.Value(recv) {
+					return true
+				}
+			}
+			return false
+		}
+		var bad []string
+		for _, b := range fn.Blocks {
+			if b == first || first.Dominates(b) || len(b.Instrs) == 0 {
+				continue
+			}
+			// a block outside the dispatch: does it leave the function (or jump past the dispatch) under extractor state?
+			if _, isRet := b.Instrs[len(b.Instrs)-1].(*ssa.Return); !isRet {
+				continue
+			}
+			for d := b.Idom(); d != nil; d = d.Idom() {
+				if iff, ok := d.Instrs[len(d.Instrs)-1].(*ssa.If); ok && touchesState(iff.Cond) {
+					bad = append(bad, "return at "+c.P.Pos(b.Instrs[len(b.Instrs)-1].Pos())+" under a test of the extractor's state at "+c.P.Pos(iff.Cond.Pos()))
+					break
+				}
+			}
+		}
+		sort.Strings(bad)
+		c.Check(len(bad) == 0, R, name+"#dispatch", fn.Pos(), "every operator reaches the dispatch", "operators are filtered before the dispatch depending on the extractor's state ("+strings.Join(bad, "; ")+"): an operator that changes the graphics state is dropped in that state")
+	}
+}
+
+// ---------------------------------------------------------------------------------------------------------------
+// R10.16 every requested page number is validated: the validating loop is left only at its end or with an error.
+
+// loopBody: the blocks of the natural loop with header h.
+func loopBody(h *ssa.BasicBlock) map[*ssa.BasicBlock]bool {
+	body := map[*ssa.BasicBlock]bool{h: true}
+	var work []*ssa.BasicBlock
+	for _, p := range h.Preds {
+		if h.Dominates(p) && !body[p] {
+			body[p] = true
+			work = append(work, p)
+		}
+	}
+	for len(work) > 0 {
+		b := work[len(work)-1]
+		work = work[:len(work)-1]
+		for _, p := range b.Preds {
+			if !body[p] && h.Dominates(p) {
+				body[p] = true
+				work = append(work, p)
+			}
+		}
+	}
+	return body
+}
+
+// R10.16 [C10]
+func ruleAllRequestedPagesValidated(c *eng.Ctx) {
+	const R = "R10.16-ALL-REQUESTED-PAGES-VALIDATED"
+	c.Rule(R, "the loop of resolvePages that compares each requested page number with 1 and the page count is left only when the requested numbers are exhausted or with an error: a break or early return once 'enough' pages were collected leaves the numbers after that point unvalidated, so Pages(1..n, n+1) is accepted while Pages(n+1, 1..n) is refused", 1, 1)
+	for _, name := range []string{"tabula.(*Extractor).resolvePages", eng.PositivePkg + ".ResolveRequested"} {
+		fn := c.P.Func(name)
+		if fn == nil {
+			if !strings.Contains(name, eng.PositivePkg) {
+				c.Undec(R, name, token.NoPos, "anchor not found")
+			}
+			continue
+		}
+		fromRequested := func(v ssa.Value) bool {
+			u, ok := v.(*ssa.UnOp)
+			if !ok || u.Op != token.MUL {
+				return false
+			}
+			ia, ok := u.X.(*ssa.IndexAddr)
+			if !ok {
+				return false
+			}
+			if fr, ok := eng.LoadOfField(ia.X); ok && (fr.Field == "pages") {
+				return true
+			}
+			_, isPar := ia.X.(*ssa.Parameter)
+			return isPar && strings.Contains(name, eng.PositivePkg)
+		}
+		// the validating comparison: requested < 1 (or <= 0, > count …) that leads to an error return
+		var vblocks []*ssa.BasicBlock
+		eng.Instrs(fn, false, func(in ssa.Instruction) {
+			b, ok := in.(*ssa.BinOp)
+			if !ok {
+				return
+			}
+			switch b.Op {
+			case token.LSS, token.LEQ, token.GTR, token.GEQ:
+			default:
+				return
+			}
+			if !(fromRequested(b.X) || fromRequested(b.Y)) {
+				return
+			}
+			if _, isIf := condIf(b); isIf {
+				vblocks = append(vblocks, b.Block())
+			}
+		})
+		if len(vblocks) == 0 {
+			c.Ok(R, name+"#validation-loop", fn.Pos(), "not evaluated: the requested numbers are not compared inside this function's own loop")
+			continue
+		}
+		hs := enclosingLoopHeaders(vblocks[0])
+		if len(hs) == 0 {
+			c.Ok(R, name+"#validation-loop", fn.Pos(), "not evaluated: the validation is not inside a loop of this function")
+			continue
+		}
+		h := hs[len(hs)-1]
+		body := loopBody(h)
+		errorExit := func(y *ssa.BasicBlock) bool {
+			// follow straight-line blocks to a return with a non-nil last result
+			for i := 0; i < 6 && y != nil; i++ {
+				if len(y.Instrs) == 0 {
+					return false
+				}
+				switch t := y.Instrs[len(y.Instrs)-1].(type) {
+				case *ssa.Return:
+					n := len(t.Results)
+					return n > 0 && !eng.IsNilConst(t.Results[n-1])
+				case *ssa.Jump:
+					y = y.Succs[0]
+				default:
+					return false
+				}
+			}
+			return false
+		}
+		var bad []string
+		for x := range body {
+			for _, y := range x.Succs {
+				if body[y] || x == h {
+					continue
+				}
+				if errorExit(y) {
+					continue
+				}
+				pos := token.NoPos
+				if len(x.Instrs) > 0 {
+					pos = x.Instrs[len(x.Instrs)-1].Pos()
+					if !pos.IsValid() && len(x.Instrs) > 1 {
+						pos = x.Instrs[len(x.Instrs)-2].Pos()
+					}
+				}
+				bad = append(bad, "the loop is left at "+c.P.Pos(pos))
+			}
+		}
+		sort.Strings(bad)
+		c.Check(len(bad) == 0, R, name+"#validation-loop", h.Instrs[0].Pos(), "the validating loop runs over every requested number", "the loop that validates the requested page numbers can be left before all of them were looked at ("+strings.Join(bad, "; ")+"): numbers after that point are never checked against the page count")
 	}
 }
